@@ -486,7 +486,7 @@ impl<'a, 't, 'g> VGen<'a, 't, 'g> {
                         type_name: Type::from(&name),
                         length: uint(1 + self.t.below(80) as u128),
                         width: if self.t.ratio(1, 4) { StringType::WString } else { StringType::String },
-                        init: None,
+                        init: if self.t.ratio(1, 2) && self.g.want("STRING_TYPE_WITH_DEFAULT") { Some("abc".to_string()) } else { None },
                     })
                 }
                 _ => DataTypeDeclarationKind::Subrange(SubrangeDeclaration {
@@ -622,6 +622,7 @@ impl<'a, 't, 'g> VGen<'a, 't, 'g> {
                 8 => 8,
                 _ => 9,
             };
+            let mut declared_string = false;
             let (mut init, kind) = match choice {
                 0 | 1 | 2 | 3 | 4 => {
                     let ty = self.num_type();
@@ -655,6 +656,17 @@ impl<'a, 't, 'g> VGen<'a, 't, 'g> {
                         )
                     }
                 }
+                8 if !self.string_types.is_empty() && self.t.flag() && self.g.want("VARIABLE_OF_DECLARED_STRING_TYPE") => {
+                    // a variable of a declared string type (`x : Label;`, as a constant `x : Label := 'abc';`)
+                    let st = self.string_types[self.t.below(self.string_types.len())].clone();
+                    let ty = self.type_ref(&st);
+                    declared_string = true;
+                    if constant {
+                        (simple(ty, Some(ConstantKind::CharacterString(CharacterStringLiteral::new("abc".chars().collect())))), VKind::Str)
+                    } else {
+                        (InitialValueAssignmentKind::LateResolvedType(ty), VKind::Str)
+                    }
+                }
                 8 => {
                     // string variable
                     let with = constant || self.t.flag();
@@ -686,7 +698,16 @@ impl<'a, 't, 'g> VGen<'a, 't, 'g> {
                 }
             };
             // CONSTANT without initial value (documented Fails shape of P0016)
-            if constant {
+            if constant && declared_string {
+                // (`x : Label` without a value is written - and parsed - as a late resolved type;
+                // whether the TYPE has a default of its own makes no difference to the rule)
+                if self.site(FaultKind::ConstNoInit) {
+                    if let InitialValueAssignmentKind::Simple(s) = &init {
+                        init = InitialValueAssignmentKind::LateResolvedType(s.type_name.clone());
+                    }
+                    self.set_marker(&name);
+                }
+            } else if constant {
                 match &mut init {
                     InitialValueAssignmentKind::Simple(s) => {
                         if self.site(FaultKind::ConstNoInit) {
